@@ -116,6 +116,10 @@ type h17Case struct {
 	ReqOps      [3]string    `json:"req_ops"`                // route, virtual host, router: "", append, overwrite, remove on x-k
 	RespOps     [3]string    `json:"resp_ops"`               // ... on x-r
 	MixedKey    bool         `json:"mixed_key,omitempty"`    // the mutations are configured as X-K / X-R (the messages carry x-k / x-r)
+	// value class of the addition at each level ("" = the level's letter r/v/g; "empty" = configured value "";
+	// "qvar" = "%x-mosn-querystring%", a registered variable the HTTP/1 server stream sets only for a request with a query)
+	ReqVals  [3]string `json:"req_vals"`
+	RespVals [3]string `json:"resp_vals"`
 	Has         bool         `json:"has"`                    // the request carries x-k: 0 and the upstream response carries x-r: 0
 	HostHdr     bool         `json:"host_hdr,omitempty"`     // the request carries x-host: alt.example
 	URI         string       `json:"uri"`
@@ -282,6 +286,158 @@ func h17RefHeader(initial []string, ops [3]string, order [3]int) []string {
 
 var h17Order = [3]int{0, 1, 2}
 
+// --- value alphabet of header additions (part http1-header-values) ---
+
+func (c *h17Case) hasVals() bool { return c.ReqVals != [3]string{} || c.RespVals != [3]string{} }
+
+// h17ValText: the configured value text of a class at a level.
+func h17ValText(level int, class string) string {
+	switch class {
+	case "empty":
+		return ""
+	case "qvar":
+		return "%" + types.VarQueryString + "%"
+	}
+	return h17LevelValues[level]
+}
+
+// h17ValEval: the evaluated value (reference): the configured text; for %x-mosn-querystring% the
+// query of the request received, empty when it has none.
+func h17ValEval(c *h17Case, level int, class string) string {
+	switch class {
+	case "empty":
+		return ""
+	case "qvar":
+		_, q, _ := h17Split(c.URI)
+		return q
+	}
+	return h17LevelValues[level]
+}
+
+func h17ValClassName(c *h17Case, class string) string {
+	switch class {
+	case "empty":
+		return "empty static value"
+	case "qvar":
+		if _, q, _ := h17Split(c.URI); q == "" {
+			return "%variable% not set for the request"
+		}
+		return "%variable% set"
+	}
+	return "static value"
+}
+
+// h17RefHeaderVals: route, then virtual host, then router level; overwrite replaces every value by
+// the evaluated value (also by an empty one), append adds it after the existing ones. drop: a
+// level left out (diagnosis), -1 = none.
+func h17RefHeaderVals(c *h17Case, initial []string, ops, vals [3]string, drop int) []string {
+	v := append([]string(nil), initial...)
+	for l := 0; l < 3; l++ {
+		if l == drop {
+			continue
+		}
+		switch ops[l] {
+		case "append":
+			v = append(v, h17ValEval(c, l, vals[l]))
+		case "overwrite":
+			v = []string{h17ValEval(c, l, vals[l])}
+		case "remove":
+			v = nil
+		}
+	}
+	return v
+}
+
+func h17NonEmpty(v []string) []string {
+	var out []string
+	for _, x := range v {
+		if x = strings.TrimSpace(x); x != "" {
+			out = append(out, x)
+		}
+	}
+	return out
+}
+
+// h17CheckHeaderValues compares the NON-EMPTY members of the key's values, in order (accepted both
+// ways: an empty header line vs no line after an overwrite with an empty value, "v," vs "v" after
+// an append of an empty value).
+func h17CheckHeaderValues(c *h17Case, dir string, initial []string, ops, vals [3]string, got []string, report func(key, detail string)) {
+	g := strings.Join(h17NonEmpty(got), ",")
+	want := h17NonEmpty(h17RefHeaderVals(c, initial, ops, vals, -1))
+	if g == strings.Join(want, ",") {
+		return
+	}
+	var desc []string
+	for l := 0; l < 3; l++ {
+		switch ops[l] {
+		case "":
+			desc = append(desc, "-")
+		case "remove":
+			desc = append(desc, "remove")
+		default:
+			desc = append(desc, fmt.Sprintf("add append=%v, %s", ops[l] == "append", h17ValClassName(c, vals[l])))
+		}
+	}
+	what := "(value alphabet) resulting values differ from route -> virtual host -> router application"
+	for l := 0; l < 3; l++ {
+		if ops[l] != "" && g == strings.Join(h17NonEmpty(h17RefHeaderVals(c, initial, ops, vals, l)), ",") {
+			what = fmt.Sprintf("%s-level %s: not applied (the message keeps what it carried before this level)", h17LevelNames[l], desc[l])
+			break
+		}
+	}
+	report(fmt.Sprintf("http1 %s-headers: %s", dir, what),
+		fmt.Sprintf("message carried %v; mutations route: %s; virtual host: %s; router: %s: the wire carries %q, expected the non-empty values %q", initial, desc[0], desc[1], desc[2], got, want))
+}
+
+// h17GenValues: (route, virtual host, router) each in {none, add append=true, add append=false} x value class
+// {static letter, empty static value, %x-mosn-querystring%} x message carries the key or not x request-targets
+// with and without a query x {no rewrite, prefix_rewrite}; the response side gets the vector rotated by one level.
+func h17GenValues(yield func(h17Case) bool) bool {
+	type alt struct{ op, val string }
+	alts := []alt{{"", ""}}
+	for _, op := range []string{"append", "overwrite"} {
+		for _, v := range []string{"", "empty", "qvar"} {
+			alts = append(alts, alt{op, v})
+		}
+	}
+	uris := []string{"/a/b?x=1", "/a", "/ab/c?y"}
+	actions := []string{h17ActNone, h17ActPrefix}
+	if vreport.Thorough() {
+		alts = append(alts, alt{"remove", ""})
+		uris = append(uris, "/a?", "/", "/a/b/?x=1&y=%2F")
+		actions = append(actions, h17ActRegex, h17ActHost)
+	}
+	for _, act := range actions {
+		for _, uri := range uris {
+			for _, has := range []bool{false, true} {
+				for _, a0 := range alts {
+					for _, a1 := range alts {
+						for _, a2 := range alts {
+							ops, vals := [3]string{a0.op, a1.op, a2.op}, [3]string{a0.val, a1.val, a2.val}
+							if vals == [3]string{} {
+								continue // the plain grid is part http1-forward-actions
+							}
+							c := h17Case{Kind: "forward", Action: act, ReqOps: ops, ReqVals: vals,
+								RespOps: [3]string{ops[1], ops[2], ops[0]}, RespVals: [3]string{vals[1], vals[2], vals[0]},
+								Has: has, URI: uri, Host: "verif.example", TimeoutMs: 1000}
+							if !yield(c) {
+								return false
+							}
+						}
+					}
+				}
+			}
+		}
+	}
+	return true
+}
+
+func TestVerifH1C17HeaderValues(t *testing.T) {
+	h17Part("http1-header-values", h17GenValues,
+		"request-header vector (route, virtual host, router) each in {none, add append=true, add append=false} x value class {static letter, empty static value, %x-mosn-querystring% (a registered variable the HTTP/1 server stream sets only for a request with a non-empty query)} on x-k (7^3 minus the all-static vectors; the response header x-r gets the same vector rotated by one level) x {message carries the key, does not} x request-targets {/a/b?x=1, /a, /ab/c?y} (thorough: + /a?, /, /a/b/?x=1&y=%2F, remove at each level) x route action {none, prefix_rewrite} (thorough: + regex_rewrite, host_rewrite); one exchange each through the real proxy on HTTP/1.1 fake connections, deterministic default schedule",
+		"full cartesian product. Reference: the evaluated value of an addition is the configured text, for %x-mosn-querystring% the query of the request received (empty when it has none); overwrite replaces every value by the evaluated value - also by an empty one -, append adds it after the existing ones; route, virtual host, router in that order. Compared on the upstream wire (x-k) and the downstream wire (x-r): the NON-EMPTY comma-separated members of the values, in order (accepted both ways: empty header line vs no line after an overwrite with an empty value, 'v,' vs 'v' after an append of an empty value); plus everything part http1-forward-actions compares (request-target, Host, x-other, method, body, status). distinct = the case; outcome = what was seen on both wires")
+}
+
 // h17RefLocations: the redirect target is the request's own URL (scheme http on this listener)
 // with the configured parts replaced; the query is kept. Where the statement is silent, both
 // readings are accepted: a non-normal path that is not replaced (as received / normalised), and a
@@ -417,12 +573,12 @@ func h17Key(c *h17Case, k string) string {
 
 func h17PutMut(c *h17Case, obj map[string]interface{}, level int) {
 	for _, d := range []struct {
-		dir, key, op string
-	}{{"request", h17ReqKey, c.ReqOps[level]}, {"response", h17RespKey, c.RespOps[level]}} {
+		dir, key, op, val string
+	}{{"request", h17ReqKey, c.ReqOps[level], c.ReqVals[level]}, {"response", h17RespKey, c.RespOps[level], c.RespVals[level]}} {
 		switch d.op {
 		case "append", "overwrite":
 			obj[d.dir+"_headers_to_add"] = []interface{}{map[string]interface{}{
-				"header": map[string]interface{}{"key": h17Key(c, d.key), "value": h17LevelValues[level]},
+				"header": map[string]interface{}{"key": h17Key(c, d.key), "value": h17ValText(level, d.val)},
 				"append": d.op == "append",
 			}}
 		case "remove":
@@ -949,7 +1105,7 @@ func h17Eval(p *vreport.Part, c h17Case) {
 		}
 		switch c.Kind {
 		case "forward":
-			p.Distinct(fmt.Sprintf("forward|%s|%s|%v|%s|%s|%v|%v|%s|%s|%v", c.Action, c.ClusterType, c.HostHdr, h17OpsString(c.ReqOps), h17OpsString(c.RespOps), c.Has, c.MixedKey, c.URI, c.Host, c.Body))
+			p.Distinct(fmt.Sprintf("forward|%s|%s|%v|%s|%s|%v|%v|%s|%s|%v", c.Action, c.ClusterType, c.HostHdr, h17OpsString(c.ReqOps), h17OpsString(c.RespOps), c.Has, c.MixedKey, c.URI, c.Host, c.Body)+"|"+strings.Join(c.ReqVals[:], "/")+"|"+strings.Join(c.RespVals[:], "/"))
 		case "redirect":
 			p.Distinct(fmt.Sprintf("redirect|%+v|%s|%s", *c.Redirect, c.URI, c.Host))
 		case "direct":
@@ -1029,7 +1185,9 @@ func h17CheckRequestOnWire(c *h17Case, a *h17Attempt, report func(key, detail st
 		initial = []string{"0"}
 	}
 	got, want := h17Values(rq, h17ReqKey), h17RefHeader(initial, c.ReqOps, h17Order)
-	if strings.Join(got, ",") != strings.Join(want, ",") || len(got) != len(want) {
+	if c.hasVals() {
+		h17CheckHeaderValues(c, "request", initial, c.ReqOps, c.ReqVals, got, report)
+	} else if strings.Join(got, ",") != strings.Join(want, ",") || len(got) != len(want) {
 		report(fmt.Sprintf("http1 request-headers: %s", h17HeaderDiagnosis(initial, c.ReqOps, got)),
 			fmt.Sprintf("request carried %s=%v; mutations (route/vhost/router) %s: upstream request carries %v, expected %v", h17ReqKey, initial, h17OpsString(c.ReqOps), got, want))
 	}
@@ -1062,7 +1220,9 @@ func h17CheckResponseOnWire(c *h17Case, a *h17Attempt, resp *hhMsg, wantStatus i
 		initial = []string{"0"}
 	}
 	got, want := h17Values(resp, h17RespKey), h17RefHeader(initial, c.RespOps, h17Order)
-	if strings.Join(got, ",") != strings.Join(want, ",") || len(got) != len(want) {
+	if c.hasVals() {
+		h17CheckHeaderValues(c, "response", initial, c.RespOps, c.RespVals, got, report)
+	} else if strings.Join(got, ",") != strings.Join(want, ",") || len(got) != len(want) {
 		report(fmt.Sprintf("http1 response-headers: %s", h17HeaderDiagnosis(initial, c.RespOps, got)),
 			fmt.Sprintf("upstream response carried %s=%v; mutations (route/vhost/router) %s: downstream response carries %v, expected %v", h17RespKey, initial, h17OpsString(c.RespOps), got, want))
 	}
